@@ -602,9 +602,20 @@ package gorm
 //@   requires positive-batch-size: batchSize >= 1
 //@   assumes handle-well-formed: db.clone > 0 || (db.Statement != nil && db.Statement.DB == db)
 //@   may-panic fc
-//@   loop 1 invariant batch-size-in-range: 1 <= batchSize && batchSize <= old(batchSize)
-//@   loop 1 invariant handle-is-reusable: tx.clone > 0
-//@   loop 1 invariant only-full-batches-so-far: totalSize > 0 ==> (rowsAffected == batch * batchSize || rowsAffected + batchSize == totalSize)
+//@   loop "for" invariant batch-size-in-range: 1 <= batchSize && batchSize <= old(batchSize)
+//@   loop "for" invariant handle-is-reusable: tx.clone > 0
+//@   loop "for" invariant conditions-form-one-and-group: noOrUnit(tx.Statement)
+//@   loop "for" invariant only-full-batches-so-far: totalSize > 0 ==> (rowsAffected == batch * batchSize || rowsAffected + batchSize == totalSize)
+//@ # The key condition that moves the cursor (id > last id of the batch) is ANDed to the chain's conditions: with an OR
+//@ # unit among them it would bind to the last one only and the rows of the others would come back in every batch
+//@ # (finding F16). So the conditions are one AND group by the time the loop starts.
+//@ spec noOrUnit(stmt) = !has(stmt.Clauses, "WHERE") || !is(stmt.Clauses["WHERE"].Expression, clause.Where) || forall(k, 0, len(whereExprs(stmt)), !singleOr(whereExprs(stmt)[k]))
+//@ site batch-cursor-condition
+//@   match call gorm.(*DB).Clauses
+//@   in gorm.(*DB).FindInBatches
+//@   min-sites 1
+//@   assert restricts-every-condition: arg0 == tx && noOrUnit(tx.Statement) [C15]
+//@   assert key-greater-than-last-row: len(arg1) == 1 && is(arg1[0], clause.Gt) && arg1[0].(clause.Gt).Value == primaryValue [C15]
 //@ site batch-query-size
 //@   match call gorm.(*DB).Limit
 //@   in gorm.(*DB).FindInBatches
